@@ -23,11 +23,14 @@ theorem yieldItem_item (c : Cfg) (s : State) (r : Res) (b : Nat) (hio : c.inOrde
   rw [yieldItem_eq_tail]
   unfold yieldTail
   split
-  · split
-    · rfl
-    · rename_i h
-      exact absurd h (takeSnapshot_some c _ hio)
   · rfl
+  · dsimp only
+    split
+    · split
+      · rfl
+      · rename_i h
+        exact absurd h (takeSnapshot_some c _ hio)
+    · rfl
 
 theorem processData_na (c : Cfg) (s : State) (r : Res) (hio : c.inOrder = false) :
     (processData c s r).2 ≠ .assertion := by
